@@ -104,8 +104,11 @@ where
 
         // Rotate any desugared modifiers to the end of the list
         let modifiers = ["inv", "omit_fwd", "omit_inv"];
-        while modifiers.contains(&elements[0]) {
+        // A step consisting of nothing but modifiers has no name to rotate into place
+        let mut rotations = 0;
+        while modifiers.contains(&elements[0]) && rotations < elements.len() {
             elements.rotate_left(1);
+            rotations += 1;
         }
 
         for element in elements {
